@@ -56,6 +56,24 @@ def pattern_call(draw):
     return ['match', fn, None, draw(st.sampled_from(TEXTS))]
 
 
+def respell(e, style):
+    """the language ignores the letter case of function names and primitives; so must the ranking"""
+    f = {1: str.upper, 2: str.capitalize}[style]
+    if isinstance(e, list) and e and isinstance(e[0], str):
+        if e[0] == 'match':
+            return ['match', f(e[1]), respell(e[2], style) if e[2] is not None else None, e[3]]
+        if e[0] == 'anyof':
+            return ['anyof', e[1], f('anyof')]
+        if e[0] == 'name' and e[1].lower() in GROUP:
+            return ['name', f(e[1])]
+        if e[0] == 'field' and len(e) == 2:
+            return ['field', e[1], f('field')]
+        return [e[0]] + [respell(x, style) for x in e[1:]]
+    if isinstance(e, list):
+        return [respell(x, style) for x in e]
+    return e
+
+
 @st.composite
 def c09_rule(draw, idx):
     pats = draw(st.lists(pattern_call(), min_size=1, max_size=3))
@@ -70,6 +88,9 @@ def c09_rule(draw, idx):
         parts = parts + [draw(st.sampled_from(FALSE_CONSTRAINTS))]
     parts = draw(st.permutations(parts))
     match = parts[0] if len(parts) == 1 else ['and', list(parts)]
+    style = draw(st.sampled_from([0, 0, 0, 1, 2]))
+    if style:
+        match = respell(match, style)
     tag_only = draw(st.integers(0, 9)) < 2
     return {'name': f'R{idx}', 'match': match, 'category': '' if tag_only else f'Cat{idx}',
             'subcategory': draw(st.sampled_from(['', '', f'Sub{idx}'])), 'merchant': None,
